@@ -38,7 +38,7 @@ Print Assumptions sort_key_strict_weak_order.
    INTEGER or a commodity-less amount compares by quantity with every amount, while two
    different commodities compare by symbol: $5 < -1 EUR < $0 < $5 *)
 Definition wit_post (n : Z) (sym : str) : post :=
-  mkPost 0 0 0 (PName [80]) [65] false 0 (VAmt (mkAmt (inject_Z n) 2 false (Some sym))).
+  mkPost 0 0 0 (PName [80]) (PName [80]) [65] false 0 (VAmt (mkAmt (inject_Z n) 2 false (Some sym))).
 
 Theorem sort_key_strict_weak_order_refuted :
   exists ks a b c, post_lt ks a b = true /\ post_lt ks b c = true /\ post_lt ks c a = true.
@@ -180,6 +180,25 @@ Theorem by_payee_sums : forall l rows,
 Proof. exact RegroupProofs.by_payee_sums. Qed.
 Print Assumptions by_payee_sums.
 
+(* the grouping key of --by-payee is post_t::payee() - the posting's own payee where it
+   names one, else its transaction's: every row (k, a) is the exact per-commodity sum of
+   the input postings with that payee and account, every posting has its row, and no two
+   rows share payee and account (each posting is in exactly one group) *)
+Theorem by_payee_partition : forall l rows,
+  by_payee l = Ok rows ->
+  (forall r, In r rows -> exists k, ppayee r = PName k /\
+     forall c, (den (pamt r) c ==
+                sum_den (filter (fun p => payee_isb k p && acct_is (pacct r) p) l) c)%Q) /\
+  (forall p, In p l -> exists k r, ppayee p = PName k /\ In r rows /\
+     ppayee r = PName k /\ pacct r = pacct p).
+Proof. exact RegroupProofs.by_payee_partition. Qed.
+Print Assumptions by_payee_partition.
+
+Theorem by_payee_one_row_per_group : forall l rows,
+  by_payee l = Ok rows -> NoDup (map row_key rows).
+Proof. exact RegroupProofs.by_payee_one_row_per_group. Qed.
+Print Assumptions by_payee_one_row_per_group.
+
 Theorem dow_sums : forall l rows,
   day_of_week_posts l = Ok rows ->
   exists rr,
@@ -239,7 +258,7 @@ Print Assumptions grand_total_is_sum.
    so --subtotal / --by-payee / --dow produce no sums at all for such a journal.  The full
    statement "subtotal always yields the sums" is false of the faithful model. ---- *)
 Definition wit_virt (v : bool) : post :=
-  mkPost 0 0 0 (PName [80]) [65] v 0 (VAmt (mkAmt 1 0 false (Some [36]))).
+  mkPost 0 0 0 (PName [80]) (PName [80]) [65] v 0 (VAmt (mkAmt 1 0 false (Some [36]))).
 
 Theorem subtotal_always_sums_refuted :
   exists l, (forall p, In p l -> exists a, pamt p = VAmt a) /\ subtotal l = Err EOther.
@@ -252,14 +271,14 @@ Print Assumptions subtotal_always_sums_refuted.
 
 (* ---- non-vacuity: the hypotheses are satisfiable ---- *)
 Definition ex_post (x d : Z) (py acct sym : str) (n : Z) : post :=
-  mkPost x d d (PName py) acct false 0 (VAmt (mkAmt (inject_Z n) 2 false (Some sym))).
+  mkPost x d d (PName py) (PName py) acct false 0 (VAmt (mkAmt (inject_Z n) 2 false (Some sym))).
 Definition ex_posts : list post :=
   [ex_post 0 18266 [83] [69; 58; 70] [36] 10; ex_post 0 18266 [83] [65; 58; 67] [36] (-10);
    ex_post 3 18264 [67] [69; 58; 70] [69] 3; ex_post 3 18264 [67] [65; 58; 67] [69] (-3);
    ex_post 6 18266 [83] [69; 58; 68] [36] 10; ex_post 6 18266 [83] [65; 58; 67] [36] (-10)].
 
 Example all_options_report :
-  (exists r, report (mkOpts (mkFilt false 0 None) GNone None (Some [(false, SDate); (true, SAmount)]) (Some 2) None) ex_posts = Ok r /\ length r = 3%nat) /\
+  (exists r, report (mkOpts (mkFilt false 0 None None) GNone None (Some [(false, SDate); (true, SAmount)]) (Some 2) None) ex_posts = Ok r /\ length r = 3%nat) /\
   sort_determined [(false, SDate); (true, SAmount)] ex_posts = true /\
   (exists r, subtotal ex_posts = Ok r /\ length r = 3%nat) /\
   (exists r, by_payee ex_posts = Ok r /\ length r = 5%nat) /\
